@@ -48,6 +48,8 @@ THEOREMS = [
     "FaxVerif.C08.proc_perm_counterexample",
     # (a) wire format
     "FaxVerif.C08.wire_partial",
+    "FaxVerif.C08.wire_roundtrip",
+    "FaxVerif.C08.wire_roundtrip_open",
     # the Spec's conclusion is an equivalence
     "FaxVerif.C08.sameOutcome_refl",
     "FaxVerif.C08.sameOutcome_symm",
